@@ -424,6 +424,8 @@ def insert_gate(ctx):
 
 # ------------------------------------------------------------------ C08.R1
 def _utc_normalised(e: ast.AST, f: Func, depth: int = 0) -> bool:
+    if isinstance(e, ast.IfExp):
+        return _utc_normalised(e.body, f, depth) and _utc_normalised(e.orelse, f, depth)
     t = norm(e)
     if t.endswith(".astimezone(timezone.utc)") or t.endswith(".astimezone(tz=timezone.utc)"):
         return True
@@ -435,7 +437,7 @@ def _utc_normalised(e: ast.AST, f: Func, depth: int = 0) -> bool:
     return False
 
 
-@rule("C08.R1", ["C08"], min_instances=5, design="3.8")
+@rule("C08.R1", ["C08", "C04"], min_instances=5, design="3.8")
 def utc_before_strip(ctx):
     """Every datetime stored into a point's time slot by the database is normalised to UTC first; the serialiser strips tzinfo and the deserialiser re-attaches UTC."""
     n_sites = 0
@@ -468,6 +470,29 @@ def utc_before_strip(ctx):
                          "non-UTC aware datetime comes back as a different instant", ctx.prog.loc(n))
     if n_sites < 4:
         raise AnalysisError("C08.R1", f"expected >=4 time stores in database.py, found {n_sites}")
+    # every path from the head of the insert loop to the storage append normalises (or stamps) the time
+    ih = ctx.prog.func("TinyFlux._insert_helper", "C08.R1")
+    from .rewrite import is_primary_append
+    g = ctx.cfg(ih, exceptional=False)
+    loops = [lp for lp in walk_local(ih.node) if isinstance(lp, ast.For)
+             and any(isinstance(c, ast.Call) and is_primary_append(ctx, ih, c) for c in walk_local(lp))]
+    for lp in loops:
+        elem = norm(lp.target)
+        heads = g.ids_of(lp)
+        apps = [nd for nd in g.stmt_nodes() for c in nd.calls() if is_primary_append(ctx, ih, c)]
+
+        def normalises(x, elem=elem) -> bool:
+            a = x.ast
+            return x.kind == "stmt" and isinstance(a, ast.Assign) and len(a.targets) == 1 \
+                and norm(a.targets[0]) == f"{elem}.time" and _utc_normalised(a.value, ih)
+        r = g.reachable(heads, avoid=normalises, first_labels=lambda l: l == "body")
+        for a in apps:
+            ok = a.id not in r
+            yield Ob("C08.R1", ["C08", "C04"], f"{ih.qual} | time normalised on every path to the append", ok,
+                     "every path through the loop body stores a UTC-normalised (or freshly stamped) time before the row "
+                     "is serialised" if ok else
+                     "some path reaches the storage append without normalising the point's time (e.g. aware non-UTC "
+                     "values are left as they are): the serialiser strips the offset blindly", ctx.prog.loc(a.ast))
     ser = ctx.prog.func("Point._serialize_to_list", "C08.R1")
     de = ctx.prog.func("Point._deserialize_from_list", "C08.R1")
     strip = [n for n in walk_local(ser.node) if isinstance(n, ast.Call) and call_name(n) == "replace"
